@@ -106,6 +106,10 @@ pub trait HasContext {
     }
 
     fn order(&self) -> usize {
+        if self.context().ordering.borrow().dirty {
+            self.context().renumber();
+        }
+
         let cache_version = self.context().info.borrow().order_version;
         let order_version = self.context().ordering.borrow().version;
         if cache_version < order_version {
@@ -125,32 +129,12 @@ pub trait HasContext {
 
     fn set_order_after(&self, id: usize) -> Option<usize> {
         let info = self.context().info.clone();
-        if self
-            .context()
-            .ordering
-            .borrow_mut()
-            .insert_after(id, &info)
-            .is_some()
-        {
-            Some(self.order())
-        } else {
-            None
-        }
+        self.context().ordering.borrow_mut().insert_after(id, &info)
     }
 
     fn set_order_before(&self, id: usize) -> Option<usize> {
         let info = self.context().info.clone();
-        if self
-            .context()
-            .ordering
-            .borrow_mut()
-            .insert_before(id, &info)
-            .is_some()
-        {
-            Some(self.order())
-        } else {
-            None
-        }
+        self.context().ordering.borrow_mut().insert_before(id, &info)
     }
 }
 
@@ -2426,6 +2410,7 @@ impl XmlElement {
 
     pub fn append_attribute(&mut self, attr: Rc<XmlItem>) {
         attr.init_order_recursive();
+        self.context.ordering.borrow_mut().dirty = true;
         self.attributes.push(attr);
     }
 
@@ -4165,6 +4150,19 @@ impl Context {
         self.id_map.borrow().get(&id).and_then(|v| v.upgrade())
     }
 
+    /// Numbers the items of the document again by walking the tree: an edit only places the
+    /// edited item itself, not its descendants.
+    fn renumber(&self) {
+        {
+            let mut ordering = self.ordering.borrow_mut();
+            ordering.order.clear();
+            ordering.version += 1;
+            ordering.dirty = false;
+        }
+
+        self.document().borrow().init_order_recursive();
+    }
+
     fn zero(&self) -> Context {
         Context {
             info: singleton(ContextInfo::default()),
@@ -4222,6 +4220,7 @@ impl fmt::Debug for ContextInfo {
 struct DocumentOrder {
     order: Vec<Weak<RefCell<ContextInfo>>>,
     version: usize,
+    dirty: bool,
 }
 
 impl DocumentOrder {
@@ -4240,6 +4239,7 @@ impl DocumentOrder {
         if order > 0 {
             self.order.insert(order, Rc::downgrade(info));
             self.version += 1;
+            self.dirty = true;
             Some(self.version)
         } else {
             None
@@ -4253,6 +4253,7 @@ impl DocumentOrder {
         if order > 0 {
             self.order.insert(order - 1, Rc::downgrade(info));
             self.version += 1;
+            self.dirty = true;
             Some(self.version)
         } else {
             None
@@ -4269,6 +4270,7 @@ impl DocumentOrder {
         if order > 0 {
             self.order.remove(order - 1);
             self.version += 1;
+            self.dirty = true;
             Some(self.version)
         } else {
             None
